@@ -10,8 +10,12 @@ OBLIGATIONS = [
     ob('C16.coalesce.concat', SC + 'c16_coalesce_concat', 'COALESCE (first non-empty), CONCAT, CONCAT_WS arms - 5 witnesses', units=['scalar'], complete=False, bound=B),
     ob('C16.replace.trim', SC + 'c16_replace_trim', 'REPLACE (all occurrences; missing arguments -> empty value, no panic), TRIM / LTRIM / RTRIM arms - 6 witnesses', units=['scalar'], complete=False, bound=B),
 ]
+for _h, _d in [('case', 'LOWER / UPPER arms (verbatim): ASCII, non-ASCII letters, empty - 4 witnesses'), ('initcap', 'INITCAP arm: every word capitalised, rest lower - 2 witnesses'),
+               ('abs_least_greatest', 'ABS / LEAST / GREATEST arms: values, the first argument counts, ill-typed first argument -> empty value, ill-typed later argument skipped - 7 witnesses'),
+               ('sqrt', 'SQRT arm: exact squares, ill-typed -> empty value - 3 witnesses')]:
+    OBLIGATIONS.append(ob('C16.' + _h.replace('_', '.'), SC + 'c16_' + _h, _d, units=['scalar'], complete=False, bound=B))
 OBLIGATIONS.append(ob('C16.compose', 'verif_frag::evalshim::c16_scalar_dispatch', 'get_function_value, scalar branch: F(G(x), a, b) applies F to the value of G(x) and to the values of a and b, each evaluated once, in order', units=['evalshim'], complete=False, bound='1 concrete call with 3 arguments'))
 CANARIES = [dict(harness=SC + 'canary_scalar_must_fail', units=['scalar'])]
 ASSUMPTIONS = ['std string routines (chars, skip, take, replace, trim, join, parse) executed from their real source by CBMC on the witnesses']
-NOT_COVERED = ['all argument values other than the witnesses', 'LOWER/UPPER/INITCAP (Unicode tables), base64, numeric formatting (format!), date functions (chrono)', 'composition through get_function_value', 'POWER/LOG/FORMAT_TIME ill-typed arguments (format!/float formatting in the same arms)']
+NOT_COVERED = ['all argument values other than the witnesses', 'TO_BASE64 / FROM_BASE64 (any harness reaching the rbase64 crate crashes the Kani compiler: intrinsics.rs:243, measured), BIN/HEX/OCT (format! with a radix), POWER/LOG/LN/EXP (powf / log / exp are not modelled by CBMC), date functions (chrono)', 'composition through get_function_value', 'POWER/LOG/FORMAT_TIME ill-typed arguments (format!/float formatting in the same arms)']
 HARNESS_TIMEOUT = 300
